@@ -100,6 +100,13 @@ def mutate(text: str, ext: str, faults: list[str], rng: random.Random, big: int)
             n = big * 2
             expr = " + ".join(str(i % 7) for i in range(n))
             text += ("\ntotal = " + expr + "\n") if ext == "py" else ("\nconst total = " + expr + ";\n" if ext != "rs" else "\nfn total() -> i32 { " + expr + " }\n")
+        elif op == "cutDirective":
+            cm = "#" if ext in ("py", "") else "//"
+            cut = f"{cm} thailint: ignore[stringly-typed.repeated-validation,magic-numbers.numeric-literal,nesting.excessive-de"
+            i = rng.randrange(len(lines) + 1)
+            lines.insert(i, cut)
+            lines.append(f"value = 1  {cm} thailint: ignore-next-line[dry.duplicate-code, improper-logging.print-stateme")
+            text = "\n".join(lines)
         elif op == "hugeHex":
             lit = "0x" + "f" * 5000
             text += {"py": f"\nLIMIT = {lit}\n\n\ndef scaled(x):\n    return x * {lit}\n",
@@ -279,7 +286,7 @@ def run(chk) -> None:
     quick = chk.tier == "quick"
     chk.level = "fault_enumeration"
     drive.preload()
-    chk.rule = ("fault sequences (34 operations: truncation, token deletion/duplication, bracket/quote imbalance, "
+    chk.rule = ("fault sequences (35 operations: truncation, token deletion/duplication, bracket/quote imbalance, "
                 "encoding damage, nesting/length blow-up, empty/binary/unknown type) of length <= MaxFaults over "
                 "seed files of 4 languages plus an extensionless shebang script, enumerated by TLC from Robust.tla; concrete positions/bytes drawn from "
                 "VERIF_SEED; each damaged file linted among 10 healthy siblings through Linter.lint (all rules, H1 "
